@@ -178,7 +178,13 @@ def _build_dataset(case):
     for it in case["items"]:
         objs.append(objs[it["alias"]] if "alias" in it else _build_maze(it))
     c = case["cfg"]
-    cfg = MazeDatasetConfig(name=c["name"], grid_n=c["grid_n"], n_mazes=len(objs), seed=c.get("seed", 42))
+    extra = dict(c.get("extra", {}))
+    if "maze_ctor" in extra:
+        from maze_dataset.generation.generators import GENERATORS_MAP
+        extra["maze_ctor"] = GENERATORS_MAP[extra["maze_ctor"]]
+    if "endpoint_kwargs" in extra:
+        extra["endpoint_kwargs"] = {k: ([tuple(x) for x in v] if isinstance(v, list) else v) for k, v in extra["endpoint_kwargs"].items()}
+    cfg = MazeDatasetConfig(name=c["name"], grid_n=c["grid_n"], n_mazes=len(objs), seed=c.get("seed", 42), **extra)
     return MazeDataset(cfg, objs)
 
 
@@ -193,7 +199,12 @@ def _call_real(ds, op):
     if op["kind"] == "custom":
         fn = _CUSTOM[op["fname"]]
         return ds.custom_maze_filter(fn, **{k: _lit(v) for k, v in op["kwargs"]})
-    return getattr(ds.filter_by, op["name"])(*[_lit(a) for a in op["args"]], **{k: _lit(v) for k, v in op["kwargs"]})
+    args, kw = [_lit(a) for a in op["args"]], {k: _lit(v) for k, v in op["kwargs"]}
+    if (len(ds.mazes) + len(op["name"]) + len(args)) % 3 == 0:
+        # the direct route: the registered function itself, called on the dataset (what `filter_by.<name>` forwards to)
+        from maze_dataset.dataset.maze_dataset import MazeDatasetFilters
+        return getattr(MazeDatasetFilters, op["name"])(ds, *args, **kw)
+    return getattr(ds.filter_by, op["name"])(*args, **kw)
 
 
 def lenmod(m, k=1, r=0):
@@ -803,7 +814,17 @@ def _gen_case(rng, allow_custom=True):
     ops = [_gen_op(rng, lens, grid_n, allow_custom) for _ in range(rng.randint(1, 5))]
     if allow_custom and rng.random() < 0.17:
         ops = _plant_history(rng, ops)
-    return {"kind": "seq", "cfg": {"name": "c08", "grid_n": grid_n, "seed": 42}, "items": items, "ops": ops, "mode": mode, "metamode": metamode}
+    cfg = {"name": "c08", "grid_n": grid_n, "seed": 42}
+    if rng.random() < 0.4:
+        # a configuration that is not the default one: a filter's result must keep every field of it (only applied_filters / n_mazes move)
+        cfg["extra"] = rng.choice([
+            {"maze_ctor": "gen_dfs_percolation", "maze_ctor_kwargs": {"p": 0.25}},
+            {"endpoint_kwargs": {"deadend_start": True, "endpoints_not_equal": True}},
+            {"endpoint_kwargs": {"allowed_start": [[0, 0], [1, 1]]}, "seq_len_max": 256},
+            {"maze_ctor": "gen_wilson", "seq_len_min": 2, "seq_len_max": 1024},
+            {"maze_ctor_kwargs": {"do_forks": False, "start_coord": [0, 1]}}])
+        cfg["seed"] = rng.choice([42, 0, 7])
+    return {"kind": "seq", "cfg": cfg, "items": items, "ops": ops, "mode": mode, "metamode": metamode}
 
 
 def _pair_cases():
